@@ -19,10 +19,10 @@ MODEL_ENTRY_POINTS = ["solver", "from_permeate", "permeate_composition", "separa
                       "ideal_iso", "ideal_noniso", "nonideal_iso", "nonideal_noniso", "partial_pressures"]
 
 
-def invoke(ep, mix, model, x, t, tp, pp, steps=2):
+def invoke(ep, mix, model, x, t, tp, pp, steps=2, pv=None):
     """call entry point `ep` with otherwise valid arguments; returns ('ok', value) | ('raise', exc)."""
-    mem = U.make_membrane(mix, 1e-3, 2e-5, t_ref=t, ea1=25000.0, ea2=60000.0)
-    pv = U.Pervaporation(membrane=mem, mixture=mix)
+    mem = U.make_membrane(mix, 1e-3, 2e-5, t_ref=t, ea1=25000.0, ea2=60000.0) if pv is None else pv.membrane
+    pv = U.Pervaporation(membrane=mem, mixture=mix) if pv is None else pv
     comp = U.Composition(p=x, type="weight")
     p1, p2 = U.Permeance(value=1e-3), U.Permeance(value=2e-5)
     cond = U.Conditions(membrane_area=0.05, initial_feed_temperature=t, initial_feed_amount=50.0, initial_feed_composition=comp,
@@ -108,6 +108,11 @@ def judge_modes(case):
     t = case["T"]
     tp = t - 60.0 if case["tp"] else None
     pp = case.get("pp_value", 0.1) if case["pp"] else None  # includes a permeate pressure of exactly 0 / 0.0: "specified" is not "truthy"
+    if isinstance(pp, str):
+        # a permeate pressure that happens to be CONSISTENT with the permeate temperature (a component's saturation pressure there,
+        # exactly or to 0.03 %): stating both is still a double specification
+        comp_ = mix.first_component if pp.startswith("psat1") else mix.second_component
+        pp = float(comp_.get_vapor_pressure(t - 60.0)) * (1.0003 if pp.endswith("+") else 1.0)
     st, r = invoke(case["ep"], mix, case["model"], case["x"], t, tp, pp)
     v = []
     if st == "skip":
@@ -163,6 +168,42 @@ def judge_model(case):
         st2, r2 = invoke(case["ep"], mix, other, case["x"], case["T"], tp, pp)
         if st2 != "ok":
             v.append(core.viol("C19/valid_specification_rejected/" + case["ep"], "%s rejects model %s whose parameters are present: %r" % (case["ep"], other, r2)))
+    return core.result("rejected:" + type(r).__name__ if st != "ok" else "accepted", digest=core.digest_of(case), viol=v)
+
+
+AFTER_USE_EPS = ["solver", "from_permeate", "permeate_composition", "separation_factor", "ideal_curve", "ideal_iso", "ideal_noniso"]
+
+
+def judge_model_after_use(case):
+    """a Pervaporation object that has already answered this very question with a complete mixture; then its mixture loses the requested
+    model's parameters (replaced by a same-named mixture without them, or edited in place): the same question must now be rejected."""
+    full = U.get_mixture("S1")
+    model = "NRTL" if case["kind"] == "nrtl_missing" else "UNIQUAC"
+    tp = case["T"] - 25.0 if case["mode"] == "T" else None
+    pp = 0.4 if case["mode"] == "p" else None
+    mem = U.make_membrane(full, 1e-3, 2e-5, t_ref=case["T"], ea1=25000.0, ea2=60000.0)
+    pv = U.Pervaporation(membrane=mem, mixture=full)
+    st0, r0 = invoke(case["ep"], full, model, case["x"], case["T"], tp, pp, steps=case["steps"], pv=pv)
+    if st0 != "ok":
+        return core.result("not-judged:first-call-raises", nontrivial=False)
+    try:
+        if case["how"] == "replaced":
+            broken = U.Mixture(name=full.name, first_component=full.first_component, second_component=full.second_component,
+                               nrtl_params=None if model == "NRTL" else full.nrtl_params, uniquac_params=None if model == "UNIQUAC" else full.uniquac_params)
+            pv.mixture = broken
+        else:
+            broken = full
+            if model == "NRTL":
+                full.nrtl_params = None
+            else:
+                full.uniquac_params = None
+    except (AttributeError, TypeError):
+        return core.result("not-judged:frozen", nontrivial=False)
+    st, r = invoke(case["ep"], broken, model, case["x"], case["T"], tp, pp, steps=case["steps"], pv=pv)
+    v = []
+    if st == "ok":
+        v.append(core.viol("C19/missing_model_parameters_accepted/after_use/" + case["ep"], "%s answered with a complete mixture first; after the mixture's %s parameters were %s "
+                           "the same object still computes with that model" % (case["ep"], model, case["how"])))
     return core.result("rejected:" + type(r).__name__ if st != "ok" else "accepted", digest=core.digest_of(case), viol=v)
 
 
@@ -235,7 +276,7 @@ def main(tier, seed):
     ts = core.lat([333.15, 353.15], seed)[:1] if q else core.lat([313.15, 333.15, 353.15], seed)
     U.install_fit_memo()
     sp = core.Space("permeate_specification", {"ep": ENTRY_POINTS + ["curve_from_permeances"], "mixture": mixes, "model": ["NRTL", "UNIQUAC"],
-                                               "tp": [False, True], "pp": [False, True], "pp_value": [0.1, 0.0, 0, 250.0, 1e-9], "x": xs, "T": ts},  # 250 kPa: above every saturation pressure (no driving force)
+                                               "tp": [False, True], "pp": [False, True], "pp_value": [0.1, 0.0, 0, 250.0, 1e-9, "psat1", "psat2", "psat1+"], "x": xs, "T": ts},  # 250 kPa: above every saturation pressure (no driving force)
                     lambda c: U.has_model(U.get_mixture(c["mixture"]), c["model"]) and (c["pp"] or c["pp_value"] == 0.1))
     m = core.run_space(rep, sp, judge_modes)
     for ep in ENTRY_POINTS:
@@ -249,6 +290,10 @@ def main(tier, seed):
                                           "mode": ["vac", "T", "p"], "x": xs + [0.0, 1.0], "T": ts},  # incl. pure feeds: no shortcut may bypass the checks
                      lambda c: not (c["ep"] in ("partial_pressures", "partial_pressures_default", "activity_default", "curve_from_permeances_default") and c["mode"] != "vac"))
     core.run_space(rep, sp2, judge_model)
+    sp2b = core.Space("model_parameters_after_use", {"ep": AFTER_USE_EPS, "kind": ["nrtl_missing", "uniquac_missing"], "mode": ["vac", "T", "p"], "how": ["replaced", "edited_in_place"],
+                                                     "steps": [1, 2], "x": xs, "T": ts},
+                      lambda c: c["steps"] == 2 or c["ep"] in ("ideal_iso", "ideal_noniso"))
+    core.run_space(rep, sp2b, judge_model_after_use)
     misc = [{"kind": "mixture_without_parameters"}]
     for comps_ in (("Benzene", "CycloHexane"), ("H2O", "DME"), ("CycloHexane", "EtOH")):
         for meth in (None, "Powell", "COBYLA"):
@@ -275,7 +320,7 @@ def main(tier, seed):
 
 def replay(body):
     U.install_fit_memo()
-    fn = {"permeate_specification": judge_modes, "model_parameters": judge_model, "misc_rejections": judge_misc}[body["space"]]
+    fn = {"permeate_specification": judge_modes, "model_parameters": judge_model, "model_parameters_after_use": judge_model_after_use, "misc_rejections": judge_misc}[body["space"]]
     r = fn(body["case"])
     for v in r["viol"]:
         print("violation key=%s: %s" % (v["key"], v["msg"]))
